@@ -169,9 +169,12 @@ pub fn parse_state_guarded(s: &str) -> std::thread::Result<anyhow_result::R> {
     catch_unwind(AssertUnwindSafe(|| GameState::from_str(s).map_err(|_| ())))
 }
 
-/// kind 0: full observation; kind 1: S, H, F only (constructed, possibly ill-formed states)
+/// kind 0: full observation; kind 1: S, H, F only (constructed, possibly ill-formed states); kind 2: S only
 pub fn observe(out: &mut String, gs: &GameState, kind: u64, panics: &mut u64) {
     guarded(out, 'S', || enc_state(gs), panics);
+    if kind == 2 {
+        return;
+    }
     guarded(out, 'H', || vec![gs.transposition_hash()], panics);
     guarded(
         out,
